@@ -25,7 +25,8 @@ Proof. reflexivity. Qed.
 
 Section ResumeProofs.
   Variable QI : queue_impl.
-  Variable QL : queue_laws QI.
+  Variable inv : Qt QI -> Prop.
+  Variable QL : queue_laws QI inv.
   Variables St Sched : Type.
   Variable R : rest_ops St Sched.
   Variable sched : sim QI St -> Sched.
@@ -38,7 +39,9 @@ Section ResumeProofs.
   Notation due := (recompute_due QI St).
   Notation adv := (advance QI St Sched R).
   Notation aft := (after_sched QI St Sched R).
-  Notation qok := (queue_ok QI St).
+  Notation qok0 := (queue_ok QI St).
+  (* well-formed pending events + the representation invariant of the queue *)
+  Definition qok (s : sim QI St) : Prop := inv (s_queue s) /\ queue_ok QI St s.
   Notation elems s := (q_elems QI (s_queue s)).
 
   Lemma with_queue_self (s : simT) : with_queue QI St (s_queue s) s = s.
@@ -53,15 +56,23 @@ Section ResumeProofs.
     s_resolve (fold_left (apply_effect QI St Sched R e) effs s) = effects_resolve (s_resolve s) effs.
   Proof. induction effs as [|a l IH]; intro s; simpl; auto. rewrite IH. destruct a; reflexivity. Qed.
 
+  Lemma effect_inv e (s : simT) a : inv (s_queue s) -> inv (s_queue (apply_effect QI St Sched R e s a)).
+  Proof. intro H. destruct a; simpl; try exact H. apply (ql_push_inv QI inv QL); exact H. Qed.
+
+  Lemma effects_inv e effs : forall s : simT,
+    inv (s_queue s) -> inv (s_queue (fold_left (apply_effect QI St Sched R e) effs s)).
+  Proof. induction effs as [|a l IH]; intros s H; simpl; auto. apply IH. apply effect_inv; exact H. Qed.
+
   Lemma effects_elems e effs : forall (s : simT) x,
+    inv (s_queue s) ->
     In x (elems (fold_left (apply_effect QI St Sched R e) effs s)) ->
     In x (elems s) \/ (x = mk_unplug e /\ existsb (pe_effect_eqb PE_push_unplug) effs = true).
   Proof.
-    induction effs as [|a l IH]; intros s x H; simpl in *.
+    induction effs as [|a l IH]; intros s x Hinv H; simpl in *.
     - left; exact H.
-    - apply IH in H. destruct H as [H | [H1 H2]].
+    - apply IH in H; [|apply effect_inv; exact Hinv]. destruct H as [H | [H1 H2]].
       + destruct a; simpl in H; try (left; exact H).
-        apply (ql_push_elems QI QL) in H. destruct H as [H | H].
+        apply (ql_push_elems QI inv QL _ _ Hinv) in H. destruct H as [H | H].
         * right. split; [symmetry; exact H | reflexivity].
         * left; exact H.
       + right. split; [exact H1 | rewrite H2; apply orb_true_r].
@@ -76,16 +87,20 @@ Section ResumeProofs.
     apply effects_resolve_indep. exact H.
   Qed.
 
+  Lemma handle_inv (s : simT) e : inv (s_queue s) -> inv (s_queue (handle s e)).
+  Proof. intro H. unfold handle_event, process_event. apply effects_inv. exact H. Qed.
+
   Lemma handle_elems (s : simT) e x :
+    inv (s_queue s) ->
     In x (elems (handle s e)) ->
     In x (elems s) \/ (x = mk_unplug e /\ pushes_unplug (e_type e) = true).
   Proof.
-    unfold handle_event, process_event. intro H. apply effects_elems in H. exact H.
+    unfold handle_event, process_event. intros Hinv H. apply effects_elems in H; [exact H|exact Hinv].
   Qed.
 
-  (* pending events strictly after period t, all well formed *)
+  (* pending events strictly after period t, all well formed; queue representation invariant *)
   Definition later (t : Z) (s : simT) : Prop :=
-    Forall (fun e => t < e_ts e /\ ev_ok e) (elems s).
+    inv (s_queue s) /\ Forall (fun e => t < e_ts e /\ ev_ok e) (elems s).
 
   Lemma fold_handle (t : Z) evs : forall s : simT,
     s_iter s = t -> later t s ->
@@ -95,19 +110,21 @@ Section ResumeProofs.
     /\ (evs = [] -> s' = s).
   Proof.
     induction evs as [|e evs IH]; intros s Hi Hl Hev; simpl.
-    - repeat split; auto; intro H; congruence.
+    - repeat split; auto; try apply Hl; intro H; congruence.
     - inversion Hev as [|? ? [Hts Hok] Hev']; subst.
+      destruct Hl as [Hinv Hl].
       assert (Hi' : s_iter (handle s e) = s_iter s) by apply handle_iter.
       assert (Hl' : later (s_iter s) (handle s e)).
-      { apply Forall_forall. intros x Hx. apply handle_elems in Hx.
+      { split; [apply handle_inv; exact Hinv|].
+        apply Forall_forall. intros x Hx. apply handle_elems in Hx; [|exact Hinv].
         destruct Hx as [Hx | [Hx Hp]].
-        - unfold later in Hl. rewrite Forall_forall in Hl. apply Hl; exact Hx.
+        - rewrite Forall_forall in Hl. apply Hl; exact Hx.
         - subst x. destruct Hok as [_ Hstay]. specialize (Hstay Hp).
           split.
           + rewrite unplug_ts. lia.
           + split; [apply unplug_sets_resolve | rewrite unplug_pushes_nothing; discriminate]. }
       destruct (IH (handle s e) Hi' Hl' Hev') as (A & B & C & D).
-      repeat split; auto.
+      repeat split; auto; try apply B.
       + intros _. destruct evs as [|e2 evs2].
         * simpl. apply handle_res. apply Hok.
         * apply C. discriminate.
@@ -122,13 +139,14 @@ Section ResumeProofs.
     s_iter s1 = s_iter s /\ later (s_iter s) s1
     /\ (s_resolve s1 = true \/ s1 = s).
   Proof.
-    intros Hq. unfold pop_and_process.
+    intros [Hinv Hq]. unfold pop_and_process.
     destruct (q_pop QI (s_iter s) (s_queue s)) as [evs q'] eqn:Ep.
-    destruct (ql_pop_rest QI QL _ _ _ _ Ep) as [Hrest Hincl].
-    pose proof (ql_pop_evs QI QL _ _ _ _ Ep) as Hevs.
+    destruct (ql_pop_rest QI inv QL _ _ _ _ Hinv Ep) as [Hrest Hincl].
+    pose proof (ql_pop_evs QI inv QL _ _ _ _ Hinv Ep) as Hevs.
+    pose proof (ql_pop_inv QI inv QL _ _ _ _ Hinv Ep) as Hinv'.
     unfold queue_ok in Hq. rewrite Forall_forall in Hq.
     assert (Hl : later (s_iter s) (with_queue QI St q' s)).
-    { apply Forall_forall. intros x Hx. simpl in Hx. split.
+    { split; [exact Hinv'|]. apply Forall_forall. intros x Hx. simpl in Hx. split.
       - rewrite Forall_forall in Hrest. apply Hrest; exact Hx.
       - apply Hq. apply Hincl. exact Hx. }
     assert (Hev : Forall (fun e => e_ts e = s_iter s /\ ev_ok e) evs).
@@ -137,21 +155,22 @@ Section ResumeProofs.
     destruct (fold_handle (s_iter s) evs (with_queue QI St q' s) eq_refl Hl Hev) as (A & B & C & D).
     split; [exact A|]. split; [exact B|].
     destruct evs as [|e evs'].
-    - right. rewrite (D eq_refl). rewrite (ql_pop_nil QI QL _ _ _ Ep). apply with_queue_self.
+    - right. rewrite (D eq_refl). rewrite (ql_pop_nil QI inv QL _ _ _ Hinv Ep). apply with_queue_self.
     - left. apply C. discriminate.
   Qed.
 
   Lemma later_popp_id (s : simT) : later (s_iter s) s -> popp s = s.
   Proof.
-    intro Hl. unfold pop_and_process.
+    intros [Hinv Hl]. unfold pop_and_process.
     assert (H : Forall (fun e => s_iter s < e_ts e) (elems s)).
-    { unfold later in Hl. rewrite Forall_forall in *. intros x Hx. apply Hl; exact Hx. }
-    rewrite (ql_pop_none QI QL _ _ H). simpl. apply with_queue_self.
+    { rewrite Forall_forall in *. intros x Hx. apply Hl; exact Hx. }
+    rewrite (ql_pop_none QI inv QL _ _ Hinv H). simpl. apply with_queue_self.
   Qed.
 
   Lemma later_qok (t : Z) (s : simT) : later t s -> s_iter s <= t + 1 -> qok s.
   Proof.
-    unfold later, queue_ok. rewrite !Forall_forall. intros H Hi x Hx.
+    unfold later, qok, queue_ok. intros [Hinv H] Hi. split; [exact Hinv|].
+    rewrite Forall_forall in *. intros x Hx.
     destruct (H x Hx). split; [lia | assumption].
   Qed.
 
@@ -314,25 +333,27 @@ Proof.
       * apply IH in Hx. destruct Hx as [Hx | Hx]; [left; exact Hx | right; right; exact Hx].
 Qed.
 
-Theorem ListQ_laws : queue_laws ListQ.
+Theorem ListQ_laws : queue_laws ListQ (fun _ => True).
 Proof.
   constructor; unfold ListQ; cbn [Qt q_empty q_pop q_push q_last q_elems].
-  - intros t q evs q' H. unfold lq_pop in H. inversion H; subst. split.
+  - intros; exact I.
+  - intros; exact I.
+  - intros t q evs q' _ H. unfold lq_pop in H. inversion H; subst. split.
     + apply Forall_forall. intros x Hx. apply filter_In in Hx. destruct Hx as [_ Hx].
       unfold lq_due in Hx. apply negb_true_iff in Hx. apply Z.leb_gt in Hx. exact Hx.
     + intros x Hx. apply filter_In in Hx. apply Hx.
-  - intros t q evs q' H. unfold lq_pop in H. inversion H; subst.
+  - intros t q evs q' _ H. unfold lq_pop in H. inversion H; subst.
     apply Forall_forall. intros x Hx. apply filter_In in Hx. destruct Hx as [Hin Hx].
     unfold lq_due in Hx. apply Z.leb_le in Hx. split; assumption.
-  - intros t q H. unfold lq_pop.
+  - intros t q _ H. unfold lq_pop.
     assert (E : filter (lq_due t) q = []).
     { induction q as [|a q IH]; simpl; auto. inversion H; subst.
       unfold lq_due at 1. destruct (Z.leb_spec (e_ts a) t); [lia|]. apply IH; assumption. }
     rewrite E. rewrite filter_none_rest; auto.
-  - intros t q q' H. unfold lq_pop in H. injection H as E1 E2. subst q'.
+  - intros t q q' _ H. unfold lq_pop in H. injection H as E1 E2. subst q'.
     apply filter_none_rest. exact E1.
-  - intros e q. apply lq_insert_incl.
-  - intros e q. destruct q as [|y q]; simpl; [reflexivity|]. destruct (key_lt e y); reflexivity.
+  - intros e q _. apply lq_insert_incl.
+  - intros e q _. destruct q as [|y q]; simpl; [reflexivity|]. destruct (key_lt e y); reflexivity.
 Qed.
 
 (* ------------------------------------------------------------------------------------------ *)
